@@ -216,6 +216,9 @@ class Gen:
         rng = self.rng
         if rng.random() < 0.01:
             return [self.ident()]  # rejected: single identifier
+        if rng.random() < 0.012:
+            # accepted, but printed as cds(x): finding class cds_single_wrapped
+            return ["("] + (["not"] if rng.random() < 0.3 else []) + [self.ident(0)] + [")"]
         return self.ors(rng.randint(1, 2), True, aliases, at_least_two=True)
 
     def unary(self, depth, in_cds, aliases, avoid, allow_not=True):
@@ -434,15 +437,187 @@ def repeated_operand(cond):
     return any(repeated_operand(op) for op in operands)
 
 
+def ill_formed_node(tree):
+    """ a node the documented grammar excludes: minimum() with a count below 1, cds() around a single identifier """
+    kind = tree[0]
+    if kind == "M" and tree[2] < 1:
+        return f"minimum() with count {tree[2]}"
+    if kind == "C" and len(tree[2]) == 1 and tree[2][0][0] == "S":
+        return f"cds() around the single identifier {tree[2][0][2]}"
+    if kind in ("C", "G"):
+        subs = tree[2]
+    elif kind == "A":
+        subs = tree[1]
+    else:
+        subs = []
+    for sub in subs:
+        found = ill_formed_node(sub)
+        if found:
+            return found
+    return None
+
+
 def check_conditions(rules, rp):
     for rule in rules:
         for what, cond in (("conditions", rule.conditions), ("extenders", rule.extenders)):
             if cond is None:
                 continue
+            bad_node = ill_formed_node(tree_of(cond, rp))
+            if bad_node:
+                return f"rule {rule.name}: {what} with {bad_node} were accepted: {cond}"
             if repeated_operand(cond):
                 return f"rule {rule.name}: {what} with a repeated operand were accepted: {cond}"
             if not has_positive(tree_of(cond, rp)):
                 return f"rule {rule.name}: {what} without a positive requirement were accepted: {cond}"
+    return None
+
+
+def tree_names(tree):
+    """ the profile names a condition tree refers to """
+    kind = tree[0]
+    if kind in ("S", "SC"):
+        return {tree[2]}
+    if kind == "M":
+        return set(tree[3])
+    if kind in ("C", "G"):
+        return set().union(*[tree_names(sub) for sub in tree[2]]) if tree[2] else set()
+    if kind == "A":
+        return set().union(*[tree_names(sub) for sub in tree[1]]) if tree[1] else set()
+    return set()
+
+
+def check_profiles(rules, sigs, rp):
+    """ unknown profile: (problem in CONDITIONS or None, unknown names in EXTENDERS or None) """
+    known = set(sigs)
+    extender_names = None
+    for rule in rules:
+        unknown = tree_names(tree_of(rule.conditions, rp)) - known
+        if unknown:
+            return f"rule {rule.name}: conditions naming {sorted(unknown)}, which are not signatures, were accepted", None
+        if rule.extenders is not None:
+            unknown = tree_names(tree_of(rule.extenders, rp)) - known
+            if unknown and extender_names is None:
+                extender_names = f"rule {rule.name}: EXTENDERS naming {sorted(unknown)}, which are not signatures, were accepted"
+    return None, extender_names
+
+
+CDS_SINGLE = None
+
+
+def is_cds_single_text(text):
+    """ the regenerated text holds cds(<identifier>) or cds(not <identifier>), which the parser rejects """
+    global CDS_SINGLE  # pylint: disable=global-statement
+    if CDS_SINGLE is None:
+        import re
+        CDS_SINGLE = re.compile(r"cds\((not )?[A-Za-z0-9_-]+\)")
+    return CDS_SINGLE.search(text) is not None
+
+
+# ---------------------------------------------------------------- independent recogniser of the documented grammar
+GRAMMAR_WORDS = {"and", "or", "not", "minimum", "cds", "minscore", "cluster", "score", "AS"} | set(KEYWORDS)
+
+
+def _is_id(tok):
+    return (tok not in GRAMMAR_WORDS and any(ch.isalpha() for ch in tok)
+            and all(ch.isalnum() or ch in "_-" for ch in tok) and tok.isascii())
+
+
+def _is_int(tok):
+    return tok.isdigit() and tok.isascii()
+
+
+def recognise_conditions(toks):
+    """ True iff toks is a sentence of  ors ::= item {or item}; item ::= un {and un}; un ::= [not] core;
+        core ::= ID | ( ors ) | cds( ors' ) | minimum( INT , [ ID {, ID} ] ) | minscore( ID , INT )
+        (cds and minimum only outside cds; the content of cds is more than a possibly negated identifier).
+        Written independently of rule_parser.py and of the Coq model. """
+    n = len(toks)
+
+    def tok(i):
+        return toks[i] if i < n else None
+
+    def ors(i, allow):
+        i = item(i, allow)
+        while i is not None and tok(i) == "or":
+            i = item(i + 1, allow)
+        return i
+
+    def item(i, allow):
+        i = unary(i, allow)
+        while i is not None and tok(i) == "and":
+            i = unary(i + 1, allow)
+        return i
+
+    def expect(i, what):
+        return i + 1 if i is not None and tok(i) == what else None
+
+    def unary(i, allow):
+        if i is None:
+            return None
+        if tok(i) == "not":
+            i += 1
+        cur = tok(i)
+        if cur == "(":
+            return expect(ors(i + 1, allow), ")")
+        if cur == "cds" and allow:
+            start = expect(i + 1, "(")
+            end = ors(start, False) if start is not None else None
+            if end is None:
+                return None
+            inside = toks[start:end]
+            if len(inside) == 1 or (len(inside) == 2 and inside[0] == "not"):
+                return None
+            return expect(end, ")")
+        if cur == "minimum" and allow:
+            i = expect(i + 1, "(")
+            if i is None or not _is_int(tok(i) or ""):
+                return None
+            i = expect(expect(i + 1, ","), "[")
+            if i is None or not _is_id(tok(i) or ""):
+                return None
+            i += 1
+            while tok(i) == ",":
+                if not _is_id(tok(i + 1) or ""):
+                    return None
+                i += 2
+            return expect(expect(i, "]"), ")")
+        if cur == "minscore":
+            i = expect(i + 1, "(")
+            if i is None or not _is_id(tok(i) or ""):
+                return None
+            i = expect(i + 1, ",")
+            if i is None or not _is_int(tok(i) or ""):
+                return None
+            return expect(i + 1, ")")
+        if cur is not None and _is_id(cur):
+            return i + 1
+        return None
+
+    return ors(0, True) == n
+
+
+def check_grammar(token_files):
+    """ for an ACCEPTED case: the tokens between CONDITIONS and EXTENDERS / the end of every RULE block (aliases
+        replaced by their definitions) must be a sentence of the documented grammar; returns a problem or None,
+        and None when the case cannot be judged (alias layouts outside substitute_aliases) """
+    if any(tok == "DEFINE" for toks in token_files for tok in toks):
+        token_files = substitute_aliases(token_files)
+        if token_files is None:
+            return None
+    for toks in token_files:
+        blocks = []
+        for tok in toks:
+            if tok == "RULE" or not blocks:
+                blocks.append([])
+            blocks[-1].append(tok)
+        for block in blocks:
+            if block.count("CONDITIONS") != 1:
+                return None
+            conds = block[block.index("CONDITIONS") + 1:]
+            if "EXTENDERS" in conds:
+                conds = conds[:conds.index("EXTENDERS")]
+            if not recognise_conditions(conds):
+                return ("accepted CONDITIONS that are not a sentence of the documented grammar: " + " ".join(conds))[:400]
     return None
 
 
@@ -613,6 +788,14 @@ def run(chk):
                         chk.known(known["fractional_kb"]["what_fails"])
                     else:
                         problem = "regenerated text loses fractional kilobases (class fractional_kb not listed as known)"
+        if problem == "regenerated text does not parse back to one rule" and is_cds_single_text(text):
+            # finding class cds_single_wrapped: cds((a)) is accepted and printed as cds(a), which is rejected
+            chk.count("roundtrip_cds_single_wrapped")
+            if "cds_single_wrapped" in known:
+                chk.known(known["cds_single_wrapped"]["what_fails"])
+                problem = None
+            else:
+                problem = "regenerated text does not parse back to one rule (class cds_single_wrapped not listed as known)"
         if "not (not " in text:
             # regression class double_negation_text / double_negation_wrapped (both repaired): the regenerated text
             # of a doubled negation keeps its parentheses; a failure here is an ordinary counterexample
@@ -624,6 +807,23 @@ def run(chk):
                            "implementation": out[:60]})
         elif rules2 is not None:
             chk.count("roundtrip_ok")
+
+    def profiles_spec(rules, sigs, flat, files, mult, out):
+        """ unknown profile: names in CONDITIONS must be signatures (counterexample otherwise); names in EXTENDERS
+            are not checked by the implementation = finding class extenders_unknown_profile """
+        from antismash.common.hmm_rule_parser import rule_parser as rp
+        problem, ext_problem = check_profiles(rules, sigs, rp)
+        if ext_problem and problem is None:
+            chk.count("extenders_unknown_profile")
+            if "extenders_unknown_profile" in known:
+                chk.known(known["extenders_unknown_profile"]["what_fails"])
+            else:
+                problem = ext_problem + " (class extenders_unknown_profile not listed as known)"
+        if problem:
+            chk.violation("counterexample", problem,
+                          {"theorem_or_correspondence": "C02 specification evaluated on the implementation's output",
+                           "function": 1, "flat": flat, "input": {"files": files, "multipliers": list(mult)},
+                           "implementation": out[:60]})
 
     tmpdir = tempfile.mkdtemp(prefix="asv_c02_")
     try:
@@ -644,9 +844,16 @@ def run(chk):
               "RULE r3 CATEGORY cat SUPERIORS r2 CUTOFF 5 NEIGHBOURHOOD 5 CONDITIONS c"], (1, 1, 1, 1)),
             (["DEFINE al1 AS a or b\nRULE r1 CATEGORY cat CUTOFF 5 NEIGHBOURHOOD 5 CONDITIONS al1 and c"], (1, 1, 1, 1)),
             (["RULE r1 CATEGORY cat CUTOFF 5 NEIGHBOURHOOD 5 CONDITIONS a#c\n"], (1, 1, 1, 1)),
+            # witnesses of the known classes cds_single_wrapped and extenders_unknown_profile
+            (["RULE r1 CATEGORY cat CUTOFF 1 NEIGHBOURHOOD 1 CONDITIONS b and cds((a))\n"
+              "RULE r2 CATEGORY cat CUTOFF 1 NEIGHBOURHOOD 1 CONDITIONS a or not cds((not b))"], (1, 1, 1, 1)),
+            (["RULE r1 CATEGORY cat CUTOFF 1 NEIGHBOURHOOD 1 CONDITIONS a EXTENDERS zz\n"
+              "RULE r2 CATEGORY cat CUTOFF 1 NEIGHBOURHOOD 1 CONDITIONS a EXTENDERS cds(unk and b)"], (1, 1, 1, 1)),
         ]
         for files, mult in corpus:
             out, rules = add_parser_case(files, SIGS, CATS, mult, "corpus")
+            if rules:
+                profiles_spec(rules, SIGS, cases[-1], files, mult, out)
             for rule in rules or []:
                 roundtrip(rule, SIGS, CATS)
         # the shipped rule files, through the loop and through the real create_rules
@@ -713,6 +920,10 @@ def run(chk):
                     from antismash.common.hmm_rule_parser import rule_parser as rp_mod
                     if rules3 is None or [enc_rule(r, rp_mod) for r in rules3] != [enc_rule(r, rp_mod) for r in rules]:
                         spec_problem = "the text with every alias replaced by its definition parses differently"
+            if spec_problem is None and rules:
+                profiles_spec(rules, SIGS, cases[-1], files, mult, out)
+                spec_problem = check_grammar(token_files)
+                chk.count("grammar_recogniser_judged" if spec_problem is None else "grammar_recogniser_rejects")
             if spec_problem:
                 chk.violation("counterexample", spec_problem,
                               {"theorem_or_correspondence": "C02 specification evaluated on the implementation's output",
